@@ -68,6 +68,15 @@ def r1_replaceable(ctx):
     okr = bool(written & read)
     ctx.ob("R19.1", "default:reads-what-update-stored", okr, "", "default() reads %s, which update_default writes" % sorted(written & read) if okr else
            "default() does not read the cell update_default writes (%s vs %s): a pushed scheme never becomes the default" % (sorted(read), sorted(written)))
+    # an accepted push is always installed: every Ok return is preceded by the store
+    cfgu = ctx.cfg(up)
+    ok_rets = [bi for kind, bi, si, rv in up.defs().get(0, []) if kind == "assign" and rv["r"] == "aggregate" and rv["kind"].get("variant") == "Ok"]
+    store_blocks = [s[0] for s in stores] + [c.bb for c in swaps]
+    if store_blocks and ok_rets:
+        okall, p = cfgu.must_pass([0], ok_rets, via_blocks=store_blocks)
+        ctx.ob("R19.1", "update_default:every-accepted-push-is-stored", okall, "", "every Ok(()) of update_default is preceded by the store" if okall else
+               "update_default can return Ok without storing the pushed scheme (an early return, e.g. a 'nothing changed' shortcut): the cell stays empty, so sessions opened afterwards fall back to the "
+               "client's configured scheme, announce the old md5 and are pushed the scheme again", path=None if okall else render_path(up, p))
     # the stored value is the parsed pushed scheme
     newc = calls_norm(up, "PaddingFactory::new")
     okn = bool(newc) and var_name(ou.of_operand(newc[0].args[0])) == "raw_scheme"
@@ -161,6 +170,9 @@ def r4_r5_client_adopts(ctx):
 
 
 def run(ctx):
+    from . import C05
+    C05.r3_role(ctx)      # what gates shaping besides the packet index is a per-role constant (no sticky per-session latch)
+    C05.r2_stop(ctx)      # stop() and the sizes come from the scheme currently installed in the session
     r1_replaceable(ctx)
     r2_new_sessions(ctx)
     r3_server_push(ctx)
